@@ -5,6 +5,9 @@ and two facts about the rewriter that hold for EVERY input (valid or not):
 
   * `toSpec`                  `Rw → SRw` (drop the table length, keep the entries)
   * `rwOK`                    decidable well-formedness: every entry index `< len`, embedded numbers in `1 … 2^61-1`
+                              (no constructor excluded: `embeddedMerge` like `embedded`, `replacement r` like `r`)
+  * `mergeInput_length_le`    the merged input of `embddedRewriter{merge: true}` is no longer than value + rest
+  * `unseenM`                 size bookkeeping of the loop (each template is used once)
   * `fuelD`, `sizeM`          template-only measures
   * `rewrite_fine`            for `fuel ≥ inp.length + fuelD r` the rewriter neither panics nor runs out of fuel
   * `rewrite_size`            `out.length ≤ sizeM r * (inp.length + 1)`
@@ -18,6 +21,8 @@ def toSpec : Rw → SRw
   | .multi rs => .multi (toSpecList rs)
   | .message _ rs => .message (toSpecEnts rs)
   | .embedded number _ rs => .embedded number (toSpecEnts rs)
+  | .embeddedMerge number _ rs => .embeddedMerge number (toSpecEnts rs)
+  | .replacement r => .replacement (toSpec r)
 def toSpecList : List Rw → List SRw
   | [] => []
   | r :: rs => toSpec r :: toSpecList rs
@@ -27,12 +32,16 @@ def toSpecEnts : List (Nat × Rw) → List (Nat × SRw)
 end
 
 mutual
-/-- well-formed rewriter: table indices are inside the table, embedded field numbers are field numbers -/
+/-- well-formed rewriter: table indices are inside the table, embedded field numbers are field numbers.
+ALL six constructors are covered (nothing is excluded): `embeddedMerge` (`embddedRewriter{merge: true}`) has the same
+conditions as `embedded`; `replacement r` is well-formed when `r` is. -/
 def rwOK : Rw → Bool
   | .raw _ => true
   | .multi rs => listOK rs
   | .message len rs => entsOK len rs
   | .embedded number len rs => decide (0 < number) && decide (number < 2 ^ 61) && entsOK len rs
+  | .embeddedMerge number len rs => decide (0 < number) && decide (number < 2 ^ 61) && entsOK len rs
+  | .replacement r => rwOK r
 def listOK : List Rw → Bool
   | [] => true
   | r :: rs => rwOK r && listOK rs
@@ -48,6 +57,8 @@ def fuelD : Rw → Nat
   | .multi rs => 2 + rs.length + fuelDList rs
   | .message _ rs => 2 + rs.length + fuelDEnts rs
   | .embedded _ _ rs => 3 + rs.length + fuelDEnts rs
+  | .embeddedMerge _ _ rs => 3 + rs.length + fuelDEnts rs
+  | .replacement r => 1 + fuelD r
 def fuelDList : List Rw → Nat
   | [] => 0
   | r :: rs => max (fuelD r) (fuelDList rs)
@@ -63,6 +74,8 @@ def sizeM : Rw → Nat
   | .multi rs => sizeMList rs
   | .message _ rs => 20 + sizeMEnts rs
   | .embedded _ _ rs => 40 + sizeMEnts rs
+  | .embeddedMerge _ _ rs => 40 + sizeMEnts rs
+  | .replacement r => sizeM r
 def sizeMList : List Rw → Nat
   | [] => 0
   | r :: rs => sizeM r + sizeMList rs
@@ -72,12 +85,14 @@ def sizeMEnts : List (Nat × Rw) → Nat
 end
 
 mutual
-/-- does the rewriter contain an `embedded` node? -/
+/-- does the rewriter contain an `embedded` or `embeddedMerge` node? -/
 def hasEmb : Rw → Bool
   | .raw _ => false
   | .multi rs => hasEmbList rs
   | .message _ rs => hasEmbEnts rs
   | .embedded _ _ _ => true
+  | .embeddedMerge _ _ _ => true
+  | .replacement r => hasEmb r
 def hasEmbList : List Rw → Bool
   | [] => false
   | r :: rs => hasEmb r || hasEmbList rs
@@ -272,5 +287,121 @@ theorem parseField_fine (inp : Bytes) :
               refine ⟨?_, happ _ _ _⟩
               simp only [List.length_take, List.length_drop]; omega
           · exact ⟨fine_err _ (by decide), by intro f t v m h; simp at h⟩
+
+/-! ## the merged input of `embddedRewriter{merge: true}` -/
+
+theorem mergeOccurrences_zero (f : Nat) (v m : Bytes) : mergeOccurrences 0 f v m = v := by
+  simp [mergeOccurrences]
+
+theorem mergeOccurrences_nil (k f : Nat) (v : Bytes) : mergeOccurrences k f v [] = v := by
+  cases k <;> simp [mergeOccurrences]
+
+theorem mergeOccurrences_step (k f : Nat) (v m : Bytes) (hne : m ≠ []) (f2 t2 : Nat) (v2 rest : Bytes)
+    (hp : parseField m = .ok (f2, t2, v2, rest)) :
+    mergeOccurrences (k + 1) f v m = mergeOccurrences k f (if f2 == f && t2 == 2 then v ++ v2 else v) rest := by
+  have : m.isEmpty = false := by cases m with
+    | nil => exact absurd rfl hne
+    | cons => rfl
+  simp only [mergeOccurrences, this, hp]
+  rfl
+
+theorem mergeOccurrences_stop (k f : Nat) (v m : Bytes) (h : ∀ q, parseField m ≠ .ok q) :
+    mergeOccurrences (k + 1) f v m = v := by
+  simp only [mergeOccurrences]
+  split
+  · rfl
+  · split
+    · rename_i hq; exact absurd hq (h _)
+    · rfl
+
+/-- `mergeOccurrences` only ever appends parts of `m`: the merged value is no longer than `v` and `m` together (for EVERY
+`m`, valid or not) -/
+theorem mergeOccurrences_length_le (k f : Nat) : ∀ (v m : Bytes),
+    (mergeOccurrences k f v m).length ≤ v.length + m.length := by
+  induction k with
+  | zero => intro v m; rw [mergeOccurrences_zero]; omega
+  | succ k ih =>
+    intro v m
+    by_cases hne : m = []
+    · subst hne; rw [mergeOccurrences_nil]; omega
+    · cases hp : parseField m with
+      | ok q =>
+        obtain ⟨f2, t2, v2, rest⟩ := q
+        rw [mergeOccurrences_step k f v m hne f2 t2 v2 rest hp]
+        have hl := ((parseField_fine m).2 f2 t2 v2 rest hp).1
+        by_cases hc : (f2 == f && t2 == 2) = true
+        · simp only [hc, if_true]
+          have := ih (v ++ v2) rest
+          simp only [List.length_append] at this; omega
+        · simp only [hc, Bool.false_eq_true, if_false]
+          have := ih v rest
+          omega
+      | err e => rw [mergeOccurrences_stop k f v m (by intro q hq; rw [hp] at hq; simp at hq)]; omega
+      | panic e => rw [mergeOccurrences_stop k f v m (by intro q hq; rw [hp] at hq; simp at hq)]; omega
+
+theorem mergeInput_length_le (r : Rw) (f t : Nat) (v m : Bytes) :
+    (mergeInput r f t v m).length ≤ v.length + m.length := by
+  unfold mergeInput
+  split
+  · split
+    · exact mergeOccurrences_length_le _ _ _ _
+    · omega
+  · omega
+
+/-! ## size bookkeeping for the loop: the templates that have not been used yet -/
+
+/-- sum of `sizeM` over the entries whose index is not in `seen` (exactly those `rewriteAbsent` runs) -/
+def unseenM : List (Nat × Rw) → List Nat → Nat
+  | [], _ => 0
+  | (i, r) :: rs, seen => (if seen.contains i then 0 else sizeM r) + unseenM rs seen
+
+theorem unseenM_nil_seen (rs : List (Nat × Rw)) : unseenM rs [] = sizeMEnts rs := by
+  induction rs with
+  | nil => rfl
+  | cons p rs ih => obtain ⟨i, r⟩ := p; simp [unseenM, sizeMEnts, ih]
+
+theorem contains_cons_ne (seen : List Nat) (n i : Nat) (h : (i == n) = false) :
+    (n :: seen).contains i = seen.contains i := by
+  simp only [List.contains_cons, h, Bool.false_or]
+
+theorem unseenM_mono (rs : List (Nat × Rw)) (seen : List Nat) (n : Nat) :
+    unseenM rs (n :: seen) ≤ unseenM rs seen := by
+  induction rs with
+  | nil => simp [unseenM]
+  | cons p rs ih =>
+    obtain ⟨i, r⟩ := p
+    simp only [unseenM]
+    by_cases hi : (i == n) = true
+    · have : (n :: seen).contains i = true := by simp only [List.contains_cons, hi, Bool.true_or]
+      rw [this]; simp only [if_true]
+      split <;> omega
+    · have hi' : (i == n) = false := by simpa using hi
+      rw [contains_cons_ne seen n i hi']
+      omega
+
+/-- using the template of field `n` for the first time takes (at least) its size out of the unused templates -/
+theorem unseenM_use (rs : List (Nat × Rw)) (seen : List Nat) (n : Nat) (r : Rw) (hg : getRw rs n = some r)
+    (hc : seen.contains n = false) : unseenM rs (n :: seen) + sizeM r ≤ unseenM rs seen := by
+  induction rs with
+  | nil => simp [getRw] at hg
+  | cons p rs ih =>
+    obtain ⟨i, r'⟩ := p
+    rw [getRw_cons] at hg
+    simp only [unseenM]
+    by_cases hi : (i == n) = true
+    · simp only [hi, if_true, Option.some.injEq] at hg
+      subst hg
+      have e : i = n := by simpa using hi
+      subst e
+      have : (i :: seen).contains i = true := by simp
+      rw [this, hc]
+      have := unseenM_mono rs seen i
+      simp only [if_true, Bool.false_eq_true, if_false]
+      omega
+    · have hi' : (i == n) = false := by simpa using hi
+      simp only [hi'] at hg
+      rw [contains_cons_ne seen n i hi']
+      have := ih hg
+      omega
 
 end Enc.Lemmas.ProtoRewriteSpec
